@@ -140,6 +140,25 @@ class _Canon(object):
         if len(params) > 1:
             self.env[params[1]] = "nextbucket"
 
+    def _terms(self, e):
+        """canonical value terms (parameters, attribute chains of nodes) an
+        expression looks at; the node list itself, kinds and indices excluded"""
+        out = set()
+        for n in ast.walk(e):
+            if isinstance(n, (ast.Attribute, ast.Subscript, ast.Name)):
+                t = self.c(n)
+                if not isinstance(t, str):
+                    continue
+                if t in ("data", "self", "type", "len", "isinstance", "self._bucket_type", "j", "True", "False",
+                         "None", "self._assert") or t.startswith(("type(", "len(")):
+                    continue
+                if isinstance(n, ast.Name) and t == n.id and t != "nextbucket":
+                    continue            # a plain local (index, flag)
+                if t == "nextbucket" or "." in t:
+                    out.add(t)
+        # drop prefixes of longer chains (data[j].child of data[j].child._next)
+        return set(t for t in out if not any(o != t and o.startswith(t) for o in out))
+
     def idx(self, e):
         if isinstance(e, ast.Constant) and isinstance(e.value, int):
             return str(e.value)
@@ -235,14 +254,27 @@ class _Canon(object):
                 self.env = saved
                 continue
             if isinstance(st, ast.If):
+                # the branches of the emptiness and child-kind tests are scopes; any
+                # other condition that looks at a value an assertion below it is about
+                # (`if nextbucket is not None: assert_(... is nextbucket)`) switches
+                # that assertion off for some values: it is recorded as weakened
+                self.guards = getattr(self, "guards", []) + [self._terms(st.test)]
                 self.walk(st.body)
                 self.walk(st.orelse)
+                self.guards = self.guards[:-1]
                 continue
             for c in ast.walk(st):
                 if isinstance(c, ast.Call):
                     fn = pyfront.unparse(c.func)
                     if (fn in self.assert_names or self.env.get(fn) == "self._assert") and c.args:
-                        self.asserts.append((self.c(c.args[0]), c.lineno))
+                        txt = self.c(c.args[0])
+                        mine = self._terms(c.args[0])
+                        shared = set()
+                        for g in getattr(self, "guards", []):
+                            shared |= (g & mine)
+                        if shared:
+                            txt = "%s or not asserted at all, depending on %s" % (txt, ", ".join(sorted(shared)))
+                        self.asserts.append((txt, c.lineno))
                     elif isinstance(c.func, ast.Attribute) and c.func.attr == "_check":
                         self.calls.append(self.c(c))
 
